@@ -730,10 +730,10 @@ fn rebased_layer_cases(ctx: &mut Ctx) {
           // with and without a THIRD layer that addresses the same units under the same keys and only adds an alias to each
           // (a later layer that does not mention the ratio must leave the earlier layer's ratio in place)
           for third in [false, true] {
-            let desc = format!("bundled units + a layer that multiplies the ratio of every declared {q} unit by {factor}{}", if third { " + a layer that only adds an alias to each of these units" } else { "" });
+            let desc = format!("bundled units + a layer that multiplies the ratio of every declared {q} unit by {factor}{}", if third { " + a layer that only adds an alias to ONE of these units (under the same key)" } else { "" });
             let layer = UnitsFile { default_system: None, si: None, fractions: None, extend: Some(Extend { precedence: Default::default(), units: map.clone() }), quantity: vec![] };
             let alias_layer = UnitsFile { default_system: None, si: None, fractions: None, quantity: vec![],
-                extend: Some(Extend { precedence: Default::default(), units: map.keys().map(|k| (k.clone(), ExtendUnitEntry { aliases: Some(vec![format!("{k}zz").into()]), ..Default::default() })).collect() }) };
+                extend: Some(Extend { precedence: Default::default(), units: { let mut ks: Vec<&String> = map.keys().collect(); ks.sort(); ks.into_iter().take(1).map(|k| (k.clone(), ExtendUnitEntry { aliases: Some(vec![format!("{k}zz").into()]), ..Default::default() })).collect() } }) };
             let built = guarded(|| { let b = Converter::builder().with_bundled_units().map_err(|e| e.to_string())?.with_units_file(layer).map_err(|e| e.to_string())?; let b = if third { b.with_units_file(alias_layer).map_err(|e| e.to_string())? } else { b }; b.finish().map_err(|e| e.to_string()) });
             let conv = match built { Ok(Ok(c)) => c, Ok(Err(e)) => { ctx.oracle_fail(desc, format!("the rebasing layer is refused: {e}"), "c09:rebase-refused".into()); continue; } Err(p) => { ctx.oracle_fail(desc, format!("panic {p}"), panic_signature(&p)); continue; } };
             ctx.eval("", true);
